@@ -44,25 +44,38 @@ _orig_repr = None
 _orig_str = None
 
 
-def _digits(x):
-    """Code points of the decimal digits of the non-negative symbolic int x."""
-    n, bound = 1, 10
-    while n < MAXD and not (x < bound):  # forks on linear comparisons only
-        n += 1
-        bound *= 10
-    if not (x < bound):
-        with NoTracing():
-            return list(map(ord, str(realize(x))))
+def _fresh_digits(x, n, leading_nonzero):
     with NoTracing():
         space = context_statespace()
         uid = space.uniq()
         ds = [z3.Int(f"dg{uid}_{i}") for i in range(n)]
         for d in ds:
             space.add(z3.And(d >= 0, d <= 9))
-        if n > 1:
+        if leading_nonzero and n > 1:
             space.add(ds[0] >= 1)
         space.add(sum(d * 10 ** (n - 1 - i) for i, d in enumerate(ds)) == x.var)
         return [SymbolicInt(48 + d) for d in ds]
+
+
+def _digits(x, width=0):
+    """Code points of the decimal digits of the non-negative symbolic int x, zero padded to `width`."""
+    if width > 0:
+        with NoTracing():
+            fits = not context_statespace().is_possible(x.var >= 10**width)
+        if fits:  # every value on this path fits the pad width: no fork at all
+            return _fresh_digits(x, width, False)
+        if x < 10**width:
+            return _fresh_digits(x, width, False)
+        n, bound = width + 1, 10 ** (width + 1)
+    else:
+        n, bound = 1, 10
+    while n < MAXD and not (x < bound):  # forks on linear comparisons only
+        n += 1
+        bound *= 10
+    if not (x < bound):
+        with NoTracing():
+            return list(map(ord, str(realize(x))))
+    return _fresh_digits(x, n, True)
 
 
 def int_to_str(x, width=0):
@@ -72,7 +85,7 @@ def int_to_str(x, width=0):
     with NoTracing():
         issym = isinstance(mag, SymbolicInt)
     if issym:
-        cps = _digits(mag)
+        cps = _digits(mag, max(width - (1 if neg else 0), 0))
     else:
         with NoTracing():
             cps = list(map(ord, str(realize(mag))))
